@@ -422,12 +422,17 @@ fn leak(s: &str) -> &'static str {
 
 fn plain(_: divan::Bencher) {}
 
+thread_local! {
+    /// Source file recorded in the locations of the entries built next.
+    static CURRENT_FILE: std::cell::Cell<&'static str> = const { std::cell::Cell::new("zoo.rs") };
+}
+
 fn meta(display: &str, raw: &str, module_path: &str, line: u32, col: u32) -> EntryMeta {
     EntryMeta {
         display_name: leak(display),
         raw_name: leak(raw),
         module_path: leak(module_path),
-        location: EntryLocation { file: "zoo.rs", line, col },
+        location: EntryLocation { file: CURRENT_FILE.with(|f| f.get()), line, col },
         bench_options: None,
     }
 }
@@ -654,6 +659,7 @@ fn check_arg_lists(cli: &Cli, r: &Report) {
 struct Sib {
     kind: u8, // 0 bench, 1 args bench, 2 group module, 3 plain module, 4 generic types, 5 generic consts
     name: &'static str,
+    file: &'static str,
     line: u32,
     col: u32,
 }
@@ -666,6 +672,7 @@ struct Built {
 fn build(sibs: &[Sib]) -> Built {
     let mut b = Built { benches: Vec::new(), groups: Vec::new() };
     for s in sibs {
+        CURRENT_FILE.with(|f| f.set(s.file));
         match s.kind {
             0 => b.benches.push(bench_entry(s.name, "zoo", s.line, s.col)),
             1 => b.benches.push(args_entry(s.name, "zoo", s.line, s.col, &["2", "10", "1"])),
@@ -682,13 +689,14 @@ fn build(sibs: &[Sib]) -> Built {
             _ => b.groups.push(generic_entry(s.name, "zoo", s.line, s.col, None, Some(&[10, 9, 100, -1]))),
         }
     }
+    CURRENT_FILE.with(|f| f.set("zoo.rs"));
     b
 }
 
 /// Reference key of a top-level sibling: (is_parent, name, line).
-fn sibling_key(s: &Sib) -> (u8, &'static str, (u32, u32)) {
-    // a plain module's location is that of its earliest child
-    ((s.kind >= 2) as u8, s.name, (s.line, s.col))
+fn sibling_key(s: &Sib) -> (u8, &'static str, (&'static str, u32, u32)) {
+    // a plain module's location is that of its earliest child; location = file, line, column
+    ((s.kind >= 2) as u8, s.name, (s.file, s.line, s.col))
 }
 
 fn expected_order(sibs: &[Sib], attr: u8) -> Vec<usize> {
@@ -749,7 +757,7 @@ fn check_siblings(cli: &Cli, r: &Report) {
     let mut combos = Vec::new();
     rec(&names, kinds, max, &mut Vec::new(), &mut combos);
     for combo in combos {
-        for line_mode in 0..3 {
+        for line_mode in 0..4 {
             let n = combo.len();
             let sibs: Vec<Sib> = combo
                 .iter()
@@ -757,8 +765,10 @@ fn check_siblings(cli: &Cli, r: &Report) {
                 .map(|(i, &(k, ni))| Sib {
                     kind: k,
                     name: names[ni],
+                    // mode 3: several source files whose order disagrees with the line order
+                    file: if line_mode == 3 { ["z.rs", "a.rs", "m.rs", "b/c.rs"][i % 4] } else { "zoo.rs" },
                     line: match line_mode {
-                        0 => 10 * (i as u32 + 1),
+                        0 | 3 => 10 * (i as u32 + 1),
                         1 => 10 * ((n - i) as u32),
                         _ => 10, // all on one line: the column decides
                     },
@@ -793,7 +803,7 @@ fn check_siblings(cli: &Cli, r: &Report) {
                 r.violation(Violation {
                     sig: json!({"check":"tree_sort","class":"not-a-permutation"}),
                     text: format!("sorting siblings {sibs:?} by attribute {attr} changed the set of (parent, node, argument): {f:?} vs unsorted {base:?}"),
-                    case: json!({"kind":"siblings","attr":attr,"sibs": sibs.iter().map(|s| json!([s.kind, s.name, s.line, s.col])).collect::<Vec<_>>()}),
+                    case: json!({"kind":"siblings","attr":attr,"sibs": sibs.iter().map(|s| json!([s.kind, s.name, s.line, s.col, s.file])).collect::<Vec<_>>()}),
                 });
                 continue;
             }
@@ -810,14 +820,14 @@ fn check_siblings(cli: &Cli, r: &Report) {
                 r.violation(Violation {
                     sig: json!({"check":"tree_sort","class":"order","attr":attr,"line_ties":line_ties}),
                     text: format!("siblings {sibs:?} sorted by {} are shown as {got:?}, the documented order is {want:?}", ["kind", "name", "location"][attr as usize]),
-                    case: json!({"kind":"siblings","attr":attr,"sibs": sibs.iter().map(|s| json!([s.kind, s.name, s.line, s.col])).collect::<Vec<_>>()}),
+                    case: json!({"kind":"siblings","attr":attr,"sibs": sibs.iter().map(|s| json!([s.kind, s.name, s.line, s.col, s.file])).collect::<Vec<_>>()}),
                 });
             }
             if got_rev != got {
                 r.violation(Violation {
                     sig: json!({"check":"tree_sort","class":"reverse","attr":attr}),
                     text: format!("siblings {sibs:?}: --sortr {} is not the exact reverse of --sort: {:?} vs {got:?}", ["kind", "name", "location"][attr as usize], top(&rev)),
-                    case: json!({"kind":"siblings","attr":attr,"sibs": sibs.iter().map(|s| json!([s.kind, s.name, s.line, s.col])).collect::<Vec<_>>()}),
+                    case: json!({"kind":"siblings","attr":attr,"sibs": sibs.iter().map(|s| json!([s.kind, s.name, s.line, s.col, s.file])).collect::<Vec<_>>()}),
                 });
             }
             // inside: generic instantiations keep declaration order under `location`,
@@ -837,7 +847,7 @@ fn check_siblings(cli: &Cli, r: &Report) {
                         r.violation(Violation {
                             sig: json!({"check":"tree_sort","class":"generic-order","attr":attr,"kind":sib.kind}),
                             text: format!("generic benchmark {:?} sorted by {} shows its instantiations as {inner:?}, expected {w:?}", sib.name, ["kind", "name", "location"][attr as usize]),
-                            case: json!({"kind":"siblings","attr":attr,"sibs": sibs.iter().map(|s| json!([s.kind, s.name, s.line, s.col])).collect::<Vec<_>>()}),
+                            case: json!({"kind":"siblings","attr":attr,"sibs": sibs.iter().map(|s| json!([s.kind, s.name, s.line, s.col, s.file])).collect::<Vec<_>>()}),
                         });
                     }
                 }
@@ -848,13 +858,13 @@ fn check_siblings(cli: &Cli, r: &Report) {
                         r.violation(Violation {
                             sig: json!({"check":"tree_sort","class":"arg-order","attr":attr}),
                             text: format!("benchmark {:?} with arguments [2, 10, 1] sorted by {} shows them as {labels:?}, expected {w:?}", sib.name, ["kind", "name", "location"][attr as usize]),
-                            case: json!({"kind":"siblings","attr":attr,"sibs": sibs.iter().map(|s| json!([s.kind, s.name, s.line, s.col])).collect::<Vec<_>>()}),
+                            case: json!({"kind":"siblings","attr":attr,"sibs": sibs.iter().map(|s| json!([s.kind, s.name, s.line, s.col, s.file])).collect::<Vec<_>>()}),
                         });
                     }
                 }
             }
             r.outcome(format!("sib:{attr}:{got:?}"));
-            r.sample(si as u64 * 3 + attr as u64, || json!({"siblings": sibs.iter().map(|s| json!([s.kind, s.name, s.line, s.col])).collect::<Vec<_>>(), "attr": attr, "order": got}));
+            r.sample(si as u64 * 3 + attr as u64, || json!({"siblings": sibs.iter().map(|s| json!([s.kind, s.name, s.line, s.col, s.file])).collect::<Vec<_>>(), "attr": attr, "order": got}));
         }
     }
 }
@@ -940,7 +950,7 @@ fn main() {
             }
             "siblings" => {
                 // re-run the full sibling check restricted to this set
-                let sibs: Vec<Sib> = case["sibs"].as_array().unwrap().iter().map(|s| Sib { kind: s[0].as_u64().unwrap() as u8, name: leak(s[1].as_str().unwrap()), line: s[2].as_u64().unwrap() as u32, col: s[3].as_u64().unwrap_or(1) as u32 }).collect();
+                let sibs: Vec<Sib> = case["sibs"].as_array().unwrap().iter().map(|s| Sib { kind: s[0].as_u64().unwrap() as u8, name: leak(s[1].as_str().unwrap()), line: s[2].as_u64().unwrap() as u32, col: s[3].as_u64().unwrap_or(1) as u32, file: leak(s[4].as_str().unwrap_or("zoo.rs")) }).collect();
                 let attr = case["attr"].as_u64().unwrap() as u8;
                 let built = build(&sibs);
                 let fwd = verif::tree(&built.benches, &built.groups, None, Some((attr, false)));
